@@ -3,6 +3,7 @@ package main
 // Mapping of Go types to SMT sorts, zero values, integer ranges.
 
 import (
+	"regexp"
 	"sync"
 	"fmt"
 	"go/types"
@@ -384,10 +385,17 @@ func (c *FnCtx) constArray(idxSort, elemSort, v string) string {
 var goTypeTags = map[string]int{}
 var goTypeTagMu sync.Mutex
 
+var aliasRE = regexp.MustCompile(`\b(byte|rune)\b`)
+
 func goTypeTag(t types.Type) int {
 	goTypeTagMu.Lock()
 	defer goTypeTagMu.Unlock()
-	k := types.TypeString(t, nil)
+	k := aliasRE.ReplaceAllStringFunc(types.TypeString(t, nil), func(m string) string {
+		if m == "byte" {
+			return "uint8"
+		}
+		return "int32"
+	}) // byte and rune are aliases: []byte and []uint8 are one type
 	if n, ok := goTypeTags[k]; ok {
 		return n
 	}
